@@ -101,19 +101,30 @@ structure St (K C R : Type) where
   live : Gid → Option C
   memo : Memo K R
 
-/-- the effect of an op on the set of live graphs (independent of the memo) -/
-def liveStep (l : Gid → Option C) : MOp K A C → (Gid → Option C)
-  | .alloc g c => if (l g).isNone then upd l g (some c) else l
-  | .mutate g c => if (l g).isSome then upd l g (some c) else l
-  | .drop g => if (l g).isSome then upd l g none else l
+/-- whether a private operation is possible: `alloc` needs a free id, `mutate`/`drop` a live graph -/
+def liveOk (l : Gid → Option C) : MOp K A C → Bool
+  | .alloc g _ => (l g).isNone
+  | .mutate g _ => (l g).isSome
+  | .drop g => (l g).isSome
+  | _ => false
+
+/-- (the test is passed in as a value so that compiled code evaluates it once, not at every application of the result) -/
+def liveStepAux (l : Gid → Option C) (ok : Bool) : MOp K A C → (Gid → Option C)
+  | .alloc g c => if ok then upd l g (some c) else l
+  | .mutate g c => if ok then upd l g (some c) else l
+  | .drop g => if ok then upd l g none else l
   | _ => l
+
+/-- the effect of an op on the set of live graphs (independent of the memo) -/
+@[inline] def liveStep (l : Gid → Option C) (op : MOp K A C) : Gid → Option C := liveStepAux l (liveOk l op) op
 
 /-- one operation of the sequential machine (the three sections of a query run back to back) -/
 def step (rc : C → K → A → R) (s : St K C R) (op : MOp K A C) : St K C R × Out R :=
   match op with
-  | .alloc g _ => (⟨liveStep s.live op, s.memo⟩, if (s.live g).isNone then .ok else .illFormed)
-  | .mutate g _ => (⟨liveStep s.live op, s.memo⟩, if (s.live g).isSome then .ok else .illFormed)
-  | .drop g => (⟨liveStep s.live op, s.memo⟩, if (s.live g).isSome then .ok else .illFormed)
+  -- (written so that compiled code tests liveness once, when the step is taken, not inside the new `live` function)
+  | .alloc g c => if (s.live g).isNone then (⟨upd s.live g (some c), s.memo⟩, .ok) else (s, .illFormed)
+  | .mutate g c => if (s.live g).isSome then (⟨upd s.live g (some c), s.memo⟩, .ok) else (s, .illFormed)
+  | .drop g => if (s.live g).isSome then (⟨upd s.live g none, s.memo⟩, .ok) else (s, .illFormed)
   -- (a dead id cannot be passed to the real function; the output flags such a history as impossible, the table is
   --  emptied all the same so that the syntactic disciplines below need not track liveness)
   | .clear g => (⟨s.live, s.memo.clear g⟩, if (s.live g).isSome then .ok else .illFormed)
